@@ -1,25 +1,25 @@
-\* two Contexts in one process: 2 operations (cleanup alphabet, 2 callables, + set/del of one name), end of run, new Context, 1 operation, end of run
+\* falsy values: set / use_or_assign / use_or_create with the values 1 False None 0 '' [] on one name and on the pre-defined text/table
 INIT Init
 NEXT Next
 CONSTANTS
-  OpsAt <- Ops2000
+  OpsAt <- Ops3020
   UNames = {1}
-  Vals = {1}
+  Vals = {1, 3, 6, 7, 8, 9}
   WithFailed = FALSE
   WithRoot = FALSE
-  WithUseOr = FALSE
+  WithUseOr = TRUE
   WithReads = FALSE
   WithMode = FALSE
   WithExec = FALSE
-  MaxIds = 2
+  MaxIds = 0
   ArgModes = {0, 1}
   WithFixtures = FALSE
   WithAttrs = TRUE
   NestSet <- NestNone
-  TwoRuns = TRUE
-  OpsB = 1
+  TwoRuns = FALSE
+  OpsB = 0
   EqualLayers = FALSE
-  UseOrRoot = FALSE
+  UseOrRoot = TRUE
 INVARIANT Visible
 INVARIANT Shadow
 INVARIANT DeleteLocal
